@@ -102,9 +102,9 @@ def theorems_in(props_file):
     return ns, names
 
 
-def lake_build(targets):
+def lake_build(targets, engines=()):
     with Lock('lake.lock'):
-        gen_driver_main.run()
+        gen_driver_main.run(engines)
         t0 = time.time()
         r = run(['lake', 'build'] + targets, cwd=LEAN)
         return r.returncode == 0, r.stdout, time.time() - t0
@@ -367,7 +367,7 @@ def main():
         tmp = os.path.join(BUILD, pid, 'replay_ops.txt')
         os.makedirs(os.path.dirname(tmp), exist_ok=True)
         open(tmp, 'w').write('\n'.join(rp.get('ops', [])) + '\n')
-        ok, out, _ = lake_build(['n2kdrv'])
+        ok, out, _ = lake_build(['n2kdrv'], [spec['engine']])
         variant = rp.get('variant') or (spec.get('variants', [''])[0])
         binp, err = build_harness(pid, spec, variant)
         if not binp:
@@ -396,7 +396,7 @@ def main():
 
     # ---- 2. prove
     modules = spec['lean_modules']
-    ok, out, dt = lake_build(modules + ['n2kdrv'])
+    ok, out, dt = lake_build(modules + ['n2kdrv'], [spec['engine']])
     ev_extra['lake_build_s'] = round(dt, 1)
     if not ok:
         errs = [l for l in out.split('\n') if 'error' in l][:20]
